@@ -2,8 +2,8 @@
 import os
 from tools.py2lean import gen_c17
 
-LEAN_TARGETS = ["EasyFEAVerif.Props.C17"]
-PROPS_MODULES = ["EasyFEAVerif.Props.C17"]
+LEAN_TARGETS = ["EasyFEAVerif.Props.C17", "EasyFEAVerif.Props.C17History"]
+PROPS_MODULES = ["EasyFEAVerif.Props.C17", "EasyFEAVerif.Props.C17History"]
 TRUSTED_EXTRA = [
     "C17: the formulas building cP / cM from the spectral projectors for the 14 splits, the switches, the 2D projector formula and the irreversibility updates are matched statement by statement against the source on every run (tools/py2lean/gen_c17.py refuses anything else); the eigen-decomposition itself (closed-form eigenvalues / eigenprojectors in floating point) and the 3D projector assembly are decided on the real code only",
 ]
